@@ -76,7 +76,7 @@ def run_case(spec, ctx):
         if n["t"] not in ("bleft", "bright"):
             return False
         P = n["a"]["lo"] if n["t"] == "bleft" else n["a"]["hi"]
-        return P["k"] != "const" and P["var"] in S
+        return bool(rg.pvars(P) & set(S))
     if rg.has(E, _sbp):
         top += "+sbp-dep"
     R = sorted(fv - set(S))
@@ -207,6 +207,25 @@ def run_case(spec, ctx):
                     ctx.violation("grid-differs", top + "|rowcount", f"{len(G1)} grid rows after evaluation, {len(G0)} with parameters")
         except core.CaseAborted:
             pass
+    # ---- a second partial evaluation of the ORIGINAL with other values must not reach into the first
+    # result (nor into the original): D(p=1) keeps denoting the set at p=1 after D(p=3) was built
+    other_vals = {n: v + 0.37 for n, v in vals.items()}
+    with ctx.lib("partial-evaluation(second, other values)", feature=top):
+        D_other = D(**other_vals)
+        if R:
+            D_other2 = D(**{n: torch.tensor([prows[n][0]], dtype=torch.float32).reshape(1, -1) + 0.21 for n in R[:1]})
+    if ok1:
+        with ctx.lib("_contains(first evaluated domain, again)", feature=top + "|after-evaluation"):
+            a1b = D1._contains(pt1, pr_R)
+        ok1b, v1b = geo.as_bool_rows(a1b, N)
+        if ok1b and not np.array_equal(v1, v1b):
+            ctx.violation("evaluated-domain-changed", top,
+                          f"D(**vals) answers differently ({int((v1 != v1b).sum())} of {N} rows) after the original was "
+                          f"partially evaluated a second time with other values")
+        nv1b = set(D1.necessary_variables) if D1.necessary_variables is not None else None
+        if nv1b != nv1:
+            ctx.violation("evaluated-domain-changed", top + "|necessary-variables",
+                          f"necessary_variables of D(**vals) changed from {sorted(nv1 or [])} to {sorted(nv1b or [])}")
     # ---- the original still answers the same
     with ctx.lib("_contains(original, again)", feature=top):
         a2 = D._contains(pt, pr_all)
